@@ -146,6 +146,15 @@ func c10BatchMain(args []string) int {
 	baseBytes := map[string][]byte{}
 	timeout := time.Duration(batch.TimeoutMs) * time.Millisecond
 	for _, cs := range batch.Cases {
+		if cs.Op == "linger" {
+			// Keeps the process alive after the previous case: a panic in a goroutine of the code under test (errgroup runs its
+			// deferred done() while unwinding, which lets the caller return before the runtime has killed the process) must
+			// land in THIS process, where the parent can see and attribute it.
+			emit(c10Result{T: "start", ID: cs.ID})
+			time.Sleep(250 * time.Millisecond)
+			emit(c10Result{T: "done", ID: cs.ID, Class: "linger"})
+			continue
+		}
 		fx := fixtures[cs.Fixture]
 		if fx == nil {
 			fb, err := os.ReadFile(filepath.Join(batch.FixturesDir, cs.Fixture, "fixture.json"))
